@@ -376,7 +376,7 @@ pub fn gen_steps(sw: &mut Rng, wl: &mut Rng, sheets: usize, n: usize) -> Vec<Ste
     }
     // cell-level: text, rich, num, bool, formula, remove, style, hyperlink, comment, merge, defined name, table
     let cw: [u32; 13] = [2, 0, 1, 0, 0, 0, 1, 2 + sw.below(8) as u32, sw.below(6) as u32, sw.below(4) as u32, sw.below(4) as u32, sw.below(2) as u32, sw.below(2) as u32];
-    let cfg = world::GenCfg { sheets, ncells: 17, alpha, w: cw };
+    let cfg = world::GenCfg { sheets, ncells: 21, alpha, w: cw };
     let mut steps = Vec::new();
     for i in 0..n {
         let tag = format!("t{}", i);
